@@ -77,6 +77,11 @@ Section Model.
       end
     else (s, RErr).
 
+  (* a DBAPI call on the live connection wrapped in try/except -> _handle_dbapi_exception *)
+  Definition call_or_handle (k cid : nat) (s : st) : st * code :=
+    let (s1, f) := dbcall k cid s in
+    match f with FOk => (s1, ROk) | _ => handle f s1 end.
+
   (* creator(): Some connection, or the fault *)
   Definition connect (s : st) : st * (option (nat * nat) * fault) :=
     let (s1, f) := dbcall K_CONNECT (s_nconn s) s in
@@ -135,9 +140,7 @@ Section Model.
         else
           let s2 := match s_txn s1 with TNone => set_txn s1 TActive (s_nested s1) | _ => s1 end in
           match s_cur s2 with
-          | Some (cid, _) =>
-              let (s3, f) := dbcall K_EXEC cid s2 in
-              match f with FOk => (s3, ROk) | _ => handle f s3 end
+          | Some (cid, _) => call_or_handle K_EXEC cid s2
           | None => (s2, ROk)
           end
     end.
@@ -158,10 +161,10 @@ Section Model.
         match s_cur s with
         | None => (set_txn s TInactive [], RPending)
         | Some (cid, _) =>
-            let (s1, f) := dbcall K_COMMIT cid s in
-            match f with
-            | FOk => (set_txn s1 TNone [], ROk)
-            | _ => let (s2, c) := handle f s1 in (set_txn s2 TInactive [], c)
+            let (s1, c) := call_or_handle K_COMMIT cid s in
+            match c with
+            | ROk => (set_txn s1 TNone [], ROk)
+            | _ => (set_txn s1 TInactive [], c)
             end
         end
     end.
@@ -174,10 +177,10 @@ Section Model.
         match s_cur s with
         | None => (set_txn s TNone [], ROk)
         | Some (cid, _) =>
-            let (s1, f) := dbcall K_ROLLBACK cid s in
-            match f with
-            | FOk => (set_txn s1 TNone [], ROk)
-            | _ => let (s2, c) := handle f s1 in (set_txn s2 TNone (s_nested s2), c)   (* nested not cancelled *)
+            let (s1, c) := call_or_handle K_ROLLBACK cid s in
+            match c with
+            | ROk => (set_txn s1 TNone [], ROk)
+            | _ => (set_txn s1 TNone (s_nested s1), c)              (* nested not cancelled *)
             end
         end
     end.
